@@ -2,7 +2,7 @@
 # run every quick check on /repo's working tree, one after the other; summary lines to stdout
 cd "$(dirname "$0")/.." || exit 2
 rc=0
-for p in C01 C02 C03 C04 C05 C06 C07 C08 C09 C10 C11 C12 C13 C14 C15 C16 C17 C18 C19 C20; do
+for p in ${VERIF_PROPS:-C01 C02 C03 C04 C05 C06 C07 C08 C09 C10 C11 C12 C13 C14 C15 C16 C17 C18 C19 C20}; do
   python3 tools/check.py $p --tier "${VERIF_TIER:-quick}" | grep -E '^(ok|FAIL|VIOLATION|KNOWN-FINDING)' || rc=1
 done
 exit $rc
